@@ -29,6 +29,11 @@ type Spec struct {
 	CDNA3     bool   `json:"cdna3,omitempty"` // emu only: CDNA3 ALU
 	MagicCopy bool   `json:"magic_copy,omitempty"`
 	Parallel  bool   `json:"parallel,omitempty"`
+	// Timing only (hook amd/samples/runner/timingconfig/verif_knobs.go, build tag verif); 0 = shipped value
+	CUPerSA int `json:"cu_per_sa,omitempty"`
+	SAs     int `json:"shader_arrays,omitempty"`
+	L2KB    int `json:"l2_kb,omitempty"`
+	Banks   int `json:"mem_banks,omitempty"`
 }
 
 // Platform is one built platform.
@@ -70,7 +75,9 @@ func New(spec Spec) (p *Platform, err error) {
 		if spec.MagicCopy {
 			tb = tb.WithMagicMemoryCopy()
 		}
+		setKnobs(spec)
 		tb.Build()
+		setKnobs(Spec{})
 	} else {
 		eb := emusystem.MakeBuilder().WithSimulation(s).WithNumGPUs(spec.NumGPUs)
 		if spec.CDNA3 {
